@@ -42,6 +42,7 @@ class LfricInterp(Interp):
             self.struct_hints[nm] = ("struct", 0, "function_space_type")
         self.basis_of = {}
         self.extent_contract = {}     # see contract_bounds
+        self.obj_args = {}            # accessor object -> argument values it was obtained with
         self.key_alias = {}           # element of a local array of proxies -> the object it is a proxy of
         self.kernel_calls = []        # (guard, name, [arg descriptors], loop stack snapshot)
         self.kernel_effect = None     # callable(self, kernel name, arg nodes, frame, guard): data effect of a kernel
@@ -176,7 +177,20 @@ class LfricInterp(Interp):
         if self._is_method(rhs, None):
             # mesh => proxy%vspace%get_mesh(): an opaque object
             base = self._method_base(rhs, frame)
-            frame.vars[name] = Binding(name, "struct", base.key + "%mesh", struct="mesh_type")
+            meth = self._method_parts(rhs)[1]
+            if meth == "get_mesh":
+                frame.vars[name] = Binding(name, "struct", base.key + "%mesh", struct="mesh_type")
+            else:       # stencil maps, reference elements, ...: one object per (owner, accessor)
+                okey = base.key + "%" + meth
+                frame.vars[name] = Binding(name, "struct", okey, struct=b.struct)
+                vals = []
+                for a in self._method_parts(rhs)[2]:
+                    a = a.items[1] if isinstance(a, (F.Actual_Arg_Spec, F.Component_Spec)) else a
+                    try:
+                        vals.append(self.ev_scalar(a, frame, g))
+                    except Unsupported:
+                        vals.append(None)
+                self.obj_args[okey] = vals
             return
         if isinstance(rhs, F.Data_Ref):
             parts = rhs.items
@@ -191,7 +205,7 @@ class LfricInterp(Interp):
                 self.new_storage(key, b.tname, b.rank, is_input=True)
             elif self.meta[key][0] != b.tname:
                 raise Unsupported("pointer type mismatch for " + key)
-            if b.rank == 1:
+            if b.rank == 1 and lname(parts[-1]) not in self.extent_contract:
                 bounds = [(z3.IntVal(1), self.fint(base.key, "undf"))]
             elif b.rank == 0:
                 bounds = []
